@@ -16,7 +16,7 @@ VARIABLES c,     \* the Init line of the running history
 tvars == <<c, s, l, viol, vl>>
 
 S0 == [reqs |-> {}, answered |-> {}, cancelled |-> {}, pieces |-> 0, rejects |-> 0, tw |-> -1, tm |-> -1,     \* uploadq
-       out |-> {}, choking |-> TRUE]                                                        \* pipeline
+       out |-> <<>>, choking |-> TRUE]                                                      \* pipeline
 
 TraceInit == TraceInit0 /\ c = Trace[1] /\ s = S0
 TrReset == Ev.op = "Init" /\ Boundary /\ c' = Ev /\ s' = S0
@@ -60,14 +60,27 @@ TrUQEnd ==
 
 \* ---------------------------------------------------------------- pipeline
 Lim == PipelineLimit(c.reqq, c.defout, c.maxout)
+\* Outstanding requests are counted ON THE WIRE, at the scripted seeder: s.out is the BAG (kept as a sequence) of the
+\* request messages received on the connection and neither served, rejected nor cancelled - two open requests for the
+\* same block are two outstanding requests.  (What the seeder has received and not answered is never more than what rain
+\* has sent and not seen answered, so the bound must hold at the seeder at every moment, whatever the delays are.)
+\* Without the fast extension a choke voids the seeder's queue and requests arriving while it chokes are void; with the
+\* fast extension every request stays outstanding until the seeder answers it with a piece or a reject message.
+RemoveOne(q, x) ==
+    IF \E i \in 1 .. Len(q) : q[i] = x
+    THEN LET i == CHOOSE i \in 1 .. Len(q) : q[i] = x /\ \A j \in 1 .. i - 1 : q[j] # x
+         IN SubSeq(q, 1, i - 1) \o SubSeq(q, i + 1, Len(q))
+    ELSE q
+Void == s.choking /\ ~c.fast
 \* @obligation C17.pipeline
 TrPLReq ==
     /\ Ev.op = "PLReq"
-    /\ IF s.choking THEN UNCHANGED s        \* void (no fast extension) or rejected at once by the scripted seeder
-       ELSE s' = [s EXCEPT !.out = @ \cup {<<Ev.p, Ev.b>>}]
-    /\ Step(IF ~s.choking /\ Cardinality(s.out \cup {<<Ev.p, Ev.b>>}) > Lim THEN "C17.pipeline" ELSE "")
-TrPLGone == Ev.op \in {"PLPiece", "PLReject", "PLCancel"} /\ s' = [s EXCEPT !.out = @ \ {<<Ev.p, Ev.b>>}] /\ Step("")
-TrPLChoke == Ev.op = "PLChoke" /\ s' = [s EXCEPT !.choking = TRUE, !.out = {}] /\ Step("")
+    /\ IF Void THEN UNCHANGED s ELSE s' = [s EXCEPT !.out = Append(@, <<Ev.p, Ev.b>>)]
+    /\ Step(IF ~Void /\ Len(s.out) + 1 > Lim THEN "C17.pipeline" ELSE "")
+TrPLGone == Ev.op \in {"PLPiece", "PLReject", "PLCancel"} /\ s' = [s EXCEPT !.out = RemoveOne(@, <<Ev.p, Ev.b>>)] /\ Step("")
+\* a reject message for a request that is NOT outstanding (hostile seeder; changes nothing on the wire)
+TrPLHostile == Ev.op = "PLHostile" /\ UNCHANGED s /\ Step("")
+TrPLChoke == Ev.op = "PLChoke" /\ s' = [s EXCEPT !.choking = TRUE, !.out = IF c.fast THEN @ ELSE <<>>] /\ Step("")
 TrPLUnchoke == Ev.op = "PLUnchoke" /\ s' = [s EXCEPT !.choking = FALSE] /\ Step("")
 TrPLEnd == Ev.op = "PLEnd" /\ UNCHANGED s /\ Step("")
 
@@ -105,7 +118,7 @@ TraceNext ==
     /\ l <= Len(Trace)
     /\ \/ TrReset \/ TrEnd \/ TrCrash \/ TrHang
        \/ TrUQWarm \/ TrUQCancel \/ TrUQRound \/ TrUQReq \/ TrUQMarker \/ TrUQPiece \/ TrUQReject \/ TrUQEnd
-       \/ TrPLReq \/ TrPLGone \/ TrPLChoke \/ TrPLUnchoke \/ TrPLEnd
+       \/ TrPLReq \/ TrPLGone \/ TrPLHostile \/ TrPLChoke \/ TrPLUnchoke \/ TrPLEnd
        \/ TrRamSnap \/ TrRamStats \/ TrRamRest \/ TrRamDone
        \/ TrWsSnap \/ TrWsHttp \/ TrWsEnd \/ TrRate \/ TrCfgDone \/ TrSkip
 
